@@ -8,12 +8,14 @@ CONSTANTS
   Ctl <- C_ping_close_pong
   Closer = TRUE
   Rd <- R_none
+  Fault <- F_none
   ControlTakesLock = TRUE
   FlushAtomic = TRUE
   LatchChecked = TRUE
   CloseLatches = TRUE
   TimeoutReleases = FALSE
   HandlerControlPath = TRUE
+  TimeoutFaultLatches = TRUE
   Fifo = TRUE
   OnlyBad = FALSE
   Family = "simclient"
